@@ -13,10 +13,10 @@
 #include "vsched/vsched.h"
 #include "C05_common.h"
 
-struct Cfg { int nt, F, ff, N; bool ord; bool ul = false; };  // N = -1: --nframes absent; ul: the instant after every mutex unlock is a scheduling point too
+struct Cfg { int nt, F, ff, N; bool ord; bool ul = false; int B = -1; /* --begin B (time of frame f is f); -1: absent */ };  // N = -1: --nframes absent; ul: the instant after every mutex unlock is a scheduling point too
 static std::string cfgstr(const Cfg &c) {
   return "nt=" + std::to_string(c.nt) + ";F=" + std::to_string(c.F) + ";ff=" + std::to_string(c.ff) + ";N=" + std::to_string(c.N) +
-         ";ord=" + (c.ord ? "1" : "0") + (c.ul ? ";ul=1" : "");
+         ";ord=" + (c.ord ? "1" : "0") + (c.ul ? ";ul=1" : "") + (c.B >= 0 ? ";B=" + std::to_string(c.B) : "");
 }
 
 static bool g_force_tids = false;  // interpret the prefix as thread ids (model -> implementation replay)
@@ -28,6 +28,7 @@ static void child_body(const Cfg &c, vs_shared *shm, const std::vector<int> &cho
   std::vector<std::string> av{"c05_driver", "--top", "x.vtop", "--trj", "x.vtrj", "--nt", std::to_string(c.nt),
                               "--first-frame", std::to_string(c.ff)};
   if (c.N >= 0) { av.push_back("--nframes"); av.push_back(std::to_string(c.N)); }
+  if (c.B >= 0) { av.push_back("--begin"); av.push_back(std::to_string(c.B)); }
   std::vector<char *> argv;
   for (auto &s : av) argv.push_back(const_cast<char *>(s.c_str()));
   App app;
@@ -45,6 +46,7 @@ static void child_body(const Cfg &c, vs_shared *shm, const std::vector<int> &cho
 static bool expected(const Cfg &c, std::vector<long> &sel) {
   sel.clear();
   int s = std::max(c.ff, 1);
+  if (c.B >= 0) s = std::max(s, c.B);  // frames before time B are skipped as well (time of frame f is f)
   if (c.F >= 1 && s > c.F) return false;  // "trajectory too short": rejected
   int last = c.N < 0 ? c.F : std::min(c.F, s + c.N - 1);
   for (int f = s; f <= last; f++) sel.push_back(f);
@@ -221,7 +223,7 @@ int main(int argc, char **argv) {
   }
   if (a.has_case) {
     auto m = bsx::kvs(a.cas);
-    Cfg c{atoi(m["nt"].c_str()), atoi(m["F"].c_str()), atoi(m["ff"].c_str()), atoi(m["N"].c_str()), m["ord"] == "1", m["ul"] == "1"};
+    Cfg c{atoi(m["nt"].c_str()), atoi(m["F"].c_str()), atoi(m["ff"].c_str()), atoi(m["N"].c_str()), m["ord"] == "1", m["ul"] == "1", m.count("B") ? atoi(m["B"].c_str()) : -1};
     std::vector<int> sched = vsx::parse_sched(m["sched"]);
     vsx::Explorer ex;
     ex.horizon = horizon;
@@ -255,6 +257,9 @@ int main(int argc, char **argv) {
             if (F == 0 && (ff > 0 || N >= 0)) continue;
             if (N == F + 1 && (N == 1 || N == 2)) continue;  // duplicate of an earlier value
             base_cfgs.push_back({nt, F, ff, N, ord == 1, false});
+            // --begin: frames with a time below B are skipped too (on top of --first-frame)
+            if (F >= 3 && (N == -1 || N == 1) && ff <= 1)
+              for (int B : {2, F + 1}) base_cfgs.push_back({nt, F, ff, N, ord == 1, false, B});
           }
   // Work items (configuration, segmentation, preemption bound) in the order they are explored: iterated bounds, small
   // configurations first.  ul = the instant after every mutex release is a scheduling point too.
@@ -279,7 +284,7 @@ int main(int argc, char **argv) {
   R.rule = "all schedules (stateless DFS over the choice sequences of the vsched controlled scheduler; scheduling points: thread "
            "start/create/exit, every blocking mutex acquire, the instant after every mutex release, join, and harness yields inside the stub reader, EvalConfiguration and "
            "MergeWorker) with <= k preemptions of the real CsgApplication::Run driven through Application::Exec, for nt x frames-in-file x "
-           "--first-frame x --nframes x ordered/unordered; k = 1 with the release points (quick); thorough: iterated bounds, level 0 = bound 1 everywhere (release points for nt<=3), level 1 = bound 2 with release points and bound 3 acquire-only for nt=2, bound 2 acquire-only for nt=3, bound 1 with release points for nt=4; items cut short by their time share are counted in the evidence. Oracle per execution: "
+           "--first-frame x --nframes x --begin x ordered/unordered; k = 1 with the release points (quick); thorough: iterated bounds, level 0 = bound 1 everywhere (release points for nt<=3), level 1 = bound 2 with release points and bound 3 acquire-only for nt=2, bound 2 acquire-only for nt=3, bound 1 with release points for nt=4; items cut short by their time share are counted in the evidence. Oracle per execution: "
            "no reader/merge overlap, reads in file order, every selected frame evaluated exactly once, ordered merge = single-thread "
            "result, unordered merged set = selected set, no deadlock/livelock. distinct_nontrivial = distinct (config, evaluation/merge "
            "order observation) pairs";
